@@ -1234,7 +1234,7 @@ func TestVerifC23(t *testing.T) {
 	}
 	const P = 12
 	perms := map[int][][]int{}
-	for k := 1; k <= 6; k++ {
+	for k := 1; k <= 7; k++ {
 		perms[k] = c23perms(k)
 	}
 	// product enumerates alphabet^k (alphabet entries are (shape, epoch)); the first slot is the parallel item.
